@@ -548,6 +548,11 @@ class Interp:
                 else:
                     root, path = ("H", ("unknown_ptr",)), ()
             else:
+                if p[0] == "f":
+                    # field access through a pinned/boxed reference (coroutine `_1.field`): auto-deref
+                    v = self.read_addr(st, root, path)
+                    if isinstance(v, Ref):
+                        root, path = v.root, v.path
                 path = path + (p,)
         return root, path
 
@@ -634,7 +639,37 @@ class Interp:
                 iv = iv or Interval()
                 st.iv[key] = Interval(max(iv.lo, 0), min(iv.hi, (1 << INT_BITS[oty]) - 1), iv.excl)
 
-    def decide_cmp(self, st, op, a, b, oty=None):
+    def decide_cmp(self, st, op, a, b, oty=None, depth=0):
+        """-> True/False/None ; comparison of two values under the path facts; min/max atoms are
+        decided by a two-way case split (min(p,q) = p with p <= q, or = q with q <= p)"""
+        r = self._decide_core(st, op, a, b, oty)
+        if r is not None or depth >= 2:
+            return r
+        mm = None
+        for side in (a, b):
+            for x in atoms(side):
+                if isinstance(x, tuple) and len(x) == 3 and x[0] in ("min", "max"):
+                    mm = x
+                    break
+            if mm:
+                break
+        if mm is None:
+            return None
+        kind, p, q = mm
+        outs = set()
+        for pick, other in ((p, q), (q, p)):
+            s2 = st.fork()
+            rel = "Le" if kind == "min" else "Ge"
+            if not self.assume_cmp(s2, rel, pick, other, True, oty):
+                continue  # infeasible branch
+            a2 = subst_term(a, mm, pick)
+            b2 = subst_term(b, mm, pick)
+            outs.add(self.decide_cmp(s2, op, a2, b2, oty, depth + 1))
+        if len(outs) == 1:
+            return outs.pop()
+        return None
+
+    def _decide_core(self, st, op, a, b, oty=None):
         """-> True/False/None ; comparison of two values under the path facts"""
         if oty:
             self.type_range(st, a, oty)
@@ -1282,6 +1317,24 @@ class Interp:
 DIVERGE = ("diverge",)
 
 
+def subst_term(v, old, new):
+    """replace every occurrence of the atom `old` in a value by `new` (re-normalising affine forms)"""
+    if v == old:
+        return new
+    if isinstance(v, tuple) and v:
+        if v[0] == "lin":
+            acc = v[2]
+            for a, k in v[1]:
+                a2 = subst_term(a, old, new)
+                sc = lin_scale(a2, k)
+                acc = lin_add(acc, sc if sc is not None else a2, 1)
+                if acc is None:
+                    return v
+            return acc
+        return tuple(subst_term(x, old, new) if isinstance(x, tuple) else x for x in v)
+    return v
+
+
 def Operand_from(j):
     from mir import Operand
 
@@ -1572,6 +1625,23 @@ def m_unwrap(I, st, t, args, site, depth):
     return None
 
 
+def m_saturating(I, st, t, args, site, depth):
+    a, b = args[0], args[1]
+    oty = (t.callee.self_ty or "").split("::")[-1] if t.callee.self_ty else None
+    name = t.callee.name
+    if name == "saturating_sub":
+        d = I.decide_cmp(st, "Ge", a, b, oty)
+        if d is True:
+            r = lin_add(a, b, -1)
+            if r is not None:
+                return [(st, r)]
+        if d is False:
+            return [(st, 0)]
+    if name == "wrapping_add" or name == "saturating_add" or name == "wrapping_sub":
+        pass
+    return None
+
+
 def m_min(I, st, t, args, site, depth):
     a, b = args[0], args[1]
     if isinstance(a, int) and isinstance(b, int):
@@ -1615,6 +1685,7 @@ DEFAULT_MODELS = {
 }
 DEFAULT_MODELS = {k: v for k, v in DEFAULT_MODELS.items() if v is not None}
 SUFFIX_MODELS = [
+    ("::saturating_sub", m_saturating),
     ("FromPrimitive::from_u8", m_from_u8),
     ("FromPrimitive::from_u16", m_from_u8),
     ("FromPrimitive::from_u32", m_from_u8),
